@@ -47,14 +47,30 @@ with `acct` ∈ `u<n>` | `locker` | `collector`, every list sorted by key, zero 
 Outputs: `DIFF` (model ≠ code: outcome or any field of the projection), `MON` (a property monitor is false on the REAL state /
 REAL call), `BAD` (protocol). After every line the model state is replaced by the real one, so one divergence is reported once.
 Monitor names: deposited_eq_sum, locker_custody, withdraw_exact, collector_custody, netfees_nonneg, netfees_delta, ext_input,
-pow_ge_one, pow_zero_exp, reward_le_netfees, tracker_fraction.
+pow_ge_one, pow_zero_exp, reward_le_netfees, tracker_fraction, savings_zero_rate_window (suffix `_touched`).
+
+`savings_zero_rate_window` (what is paid out of the net fees as savings is justified by rate × time): a specification ghost that
+never reads the time stamps — per collector entry the rate in force and the time of the last accepted rate update, per locker the
+time it was last settled (created, deposited into, withdrawn from, accrued, swept) — bounds the whole units a call credits to a
+locker by `balance · ((1+r)^⌊y⌋·(1+r·frac y) − 1)` (≥ the exact formula, computed in rationals, plus float slack and the carried
+fraction) over the interval from max(last rate update, last settlement) to now at the rate in force, and by 0 while the rate is
+zero. Suffix `_touched`: the locker was deposited into / withdrawn from while the rate was zero (reproduced defect D35, notes/C18.md).
 -/
 -- DRIVER: prefix=lk ns=Comdex.Drv.Locker
 namespace Comdex.Drv.Locker
 open Comdex.Locker Comdex.Line
 
+/-- specification ghost of one locker -/
+structure LkGhost where
+  settled : Int
+  touched : Bool := false   -- deposit / withdraw while the rate was zero, since the last settlement at a running rate
+  muted : Bool := false     -- whitelisted for rewards after the fact / a sweep could not pay: no specification until the next settlement
+  deriving Inhabited
+
 structure St where
   s : State := {}
+  grate : Store (Nat × Nat) (Int × Int) := []   -- (app, asset) ↦ (rate in force, time of the last accepted rate update)
+  glk : Store Nat LkGhost := []
   deriving Inhabited
 
 def init : St := {}
@@ -331,6 +347,72 @@ def opPow : OpT → Option (Option Int)
   | .deposit _ _ _ _ _ pw | .withdraw _ _ _ _ _ pw | .close _ _ _ _ pw | .rewardCalc _ _ pw => some pw
   | _ => none
 
+
+/-- rational upper bound of `n·((1+r)^y − 1)` for `y = secs / year`: `(1+r)^y ≤ (1+r)^⌊y⌋·(1 + r·frac y)`, plus the float slack of
+`CalculationOfRewards` (relative 2⁻⁵⁰ of `n·(1+r)^y`) and one unit for the carried tracker fraction -/
+def savingsBound (n rate secs : Int) : Rat :=
+  if secs ≤ 0 || n ≤ 0 || rate ≤ 0 then 1 else
+  let k : Nat := (secs / 31557600).toNat
+  let f : Rat := (secs : Rat) / 31557600 - (k : Rat)
+  let r : Rat := (rate : Rat) / ((10 ^ 18 : Nat) : Rat)
+  let g : Rat := (1 + r) ^ k * (1 + r * f)
+  (n : Rat) * (g - 1) + (n : Rat) * g / ((2 ^ 50 : Nat) : Rat) + 2
+
+/-- whole units the call credited to each locker (REAL records before / after; for a close: the observed reward) -/
+def creditedUnits (p r : State) (opT : OpT) (obs : Option Int) : List (Nat × Int) :=
+  p.lockers.filterMap fun (id, l) =>
+    match Store.get r.lockers id with
+    | some l' => if l'.ret > l.ret then some (id, l'.ret - l.ret) else none
+    | none =>
+      match opT with
+      | .close _ _ _ i _ => if i = id then obs.bind fun x => if x > 0 then some (id, x) else none else none
+      | _ => none
+
+def ghostMon (st : St) (p : State) (now : Int) (cr : List (Nat × Int)) : List String :=
+  cr.filterMap fun (id, d) =>
+    match Store.get p.lockers id, Store.get st.glk id with
+    | some l, some gl =>
+      if gl.muted then none else
+      let key := (l.app, l.asset)
+      let (rate, seg) := (Store.get st.grate key).getD (0, 0)
+      let start := if seg ≤ gl.settled then gl.settled else seg
+      let bound : Rat := if key ∈ p.rewardWl && rate > 0 then savingsBound l.net rate (now - start) else 0
+      if (d : Rat) > bound then some ("savings_zero_rate_window" ++ (if gl.touched then "_touched" else "")) else none
+    | _, _ => none
+
+/-- the ghost after an accepted call (`m` = the model's result, used only to see whether a sweep reached a locker) -/
+def ghostAfter (st : St) (p r : State) (m : Option State) (now : Int) (opT : OpT) : Store (Nat × Nat) (Int × Int) × Store Nat LkGhost :=
+  let running (k : Nat × Nat) : Bool := k ∈ p.rewardWl && ((Store.get st.grate k).getD (0, 0)).1 > 0
+  let settle (g : Store Nat LkGhost) (id : Nat) (k : Nat × Nat) (touch : Bool) : Store Nat LkGhost :=
+    let old := (Store.get g id).getD { settled := now }
+    if running k then Store.put g id { settled := now }
+    else if touch then Store.put g id { old with settled := now, touched := true }
+    else g
+  match opT with
+  | .create .. =>
+    (st.grate, r.lockers.foldl (fun g q => if (Store.get p.lockers q.1).isNone then Store.put g q.1 { settled := now } else g) st.glk)
+  | .deposit _ a b i _ _ | .withdraw _ a b i _ _ => (st.grate, settle st.glk i (a, b) true)
+  | .rewardCalc a i _ =>
+    (match Store.get p.lockers i with
+     | some l => (st.grate, settle st.glk i (a, l.asset) false)
+     | none => (st.grate, st.glk))
+  | .close _ _ _ i _ => (st.grate, Store.del st.glk i)
+  | .lsrUpdate a b c _ =>
+    let (oldRate, oldSeg) := (Store.get st.grate (a, b)).getD (0, 0)
+    if (a, b) ∈ p.rewardWl then
+      let ids := ((Store.get p.lookup (a, b)).map (·.ids)).getD []
+      let g := if oldRate = 0 then st.glk else
+        ids.foldl (fun g id =>
+          let reached := match m.bind (fun s => Store.get s.ltime id) with | some lt => lt.2 == now | none => false
+          let old := (Store.get g id).getD { settled := now }
+          if reached then Store.put g id { old with settled := now, touched := false } else Store.put g id { old with muted := true }) st.glk
+      (Store.put st.grate (a, b) (c.lsr, now), g)
+    else (Store.put st.grate (a, b) (c.lsr, oldSeg), st.glk)
+  | .wlReward a b =>
+    (st.grate, p.lockers.foldl (fun g q => if q.2.app = a && q.2.asset = b then
+        Store.put g q.1 { ((Store.get g q.1).getD { settled := now }) with muted := true } else g) st.glk)
+  | .plain _ => (st.grate, st.glk)
+
 def applyOp (st : St) (seq : String) (ctx : Ctx) (opT : OpT) (pis : List (Option PowInfo)) (obs : Option String)
     (outcome : String) (stateStr : String) : St × List String :=
   match parseState st.s stateStr with
@@ -365,6 +447,18 @@ def applyOp (st : St) (seq : String) (ctx : Ctx) (opT : OpT) (pis : List (Option
          | some r' => if ok && norm r' == norm r && (m.map norm) != some (norm r) then some r' else m
          | none => m)
       | _ => m
+    -- deposit / withdraw at rate zero are also accepted in their repaired form (D35, notes/C18.md: the locker keeps the flag
+    -- `BlockHeight = 0`)
+    let m := match opT with
+      | .deposit _ a b i _ _ | .withdraw _ a b i _ _ =>
+        (match m, Store.get p.collk (a, b) with
+         | some s1, some c =>
+           if c.lsr = 0 then
+             let s2 := { s1 with ltime := Store.put s1.ltime i (0, ctx.now) }
+             if ok && norm s2 == norm r && norm s1 != norm r then some s2 else m
+           else m
+         | _, _ => m)
+      | _ => m
     let dOutcome := if m.isSome != ok then [s!"DIFF\t{seq}\toutcome model={if m.isSome then "ok" else "rejected"} impl={outcome}"] else []
     let expect := if ok then m.getD p else p     -- a rejected message must leave the books untouched
     let dState := if norm expect == norm r then [] else
@@ -382,13 +476,15 @@ def applyOp (st : St) (seq : String) (ctx : Ctx) (opT : OpT) (pis : List (Option
     let mRw := match ok, paid, rewardKey p opT with
       | true, some x, some (a, b, _) => if x ≤ fee p (a, b) then [] else [s!"MON\t{seq}\treward_le_netfees"]
       | _, _, _ => []
-    let mons :=
+    let gmon := if ok then (ghostMon st p ctx.now (creditedUnits p r opT (obs.bind (·.toInt?)))).map fun n => s!"MON\t{seq}\t{n}" else []
+    let (grate', glk') := if ok then ghostAfter st p r m ctx.now opT else (st.grate, st.glk)
+    let mons := gmon ++
       (if ok && !monWithdrawExact p r (obs.bind (·.toInt?)) op then [s!"MON\t{seq}\twithdraw_exact"] else []) ++
       (if ok && !monNetFeesDelta p r op then [s!"MON\t{seq}\tnetfees_delta"] else []) ++
       (stateMonitors p r).map fun n => s!"MON\t{seq}\t{n}"
     -- accounts outside the projection (auction escrows) keep the balance the model computed
     let carried := (dedupKeys expect.bank).filter fun q => !compared q.1.1
-    ({ st with s := { r with bank := r.bank ++ carried } }, ext ++ pows ++ dOutcome ++ dState ++ dRw ++ mRw ++ mons)
+    ({ st with s := { r with bank := r.bank ++ carried }, grate := grate', glk := glk' }, ext ++ pows ++ dOutcome ++ dState ++ dRw ++ mRw ++ mons)
 
 def nat3 (a b c : String) : Option (Nat × Nat × Nat) := do pure (← a.toNat?, ← b.toNat?, ← c.toNat?)
 def ctx? (a b : String) : Option Ctx := do pure { now := ← a.toInt?, height := ← b.toInt? }
@@ -402,7 +498,8 @@ def handle (st : St) (seq : String) (f : List String) : St × List String :=
     match field? [a] "assets" >>= parseNatList, field? [ap] "apps" >>= parseNatList, field? [ck] "collk" >>= parseList parseCL? with
     | some as, some aps, some cks =>
       let geti (key : String) : Int := ((field? rest key) >>= (·.toInt?)).getD 0
-      ({ s := { assets := as, apps := aps, collk := cks, aucDur := geti "adur", bidDur := geti "bdur", bidFactor := geti "bf" } }, [])
+      ({ s := { assets := as, apps := aps, collk := cks, aucDur := geti "adur", bidDur := geti "bdur", bidFactor := geti "bf" },
+         grate := cks.map fun q => (q.1, (q.2.lsr, q.2.bt)), glk := [] }, [])
     | _, _, _ => bad
   | ["lk.begin1", now, ks, o, ss] =>
     match now.toInt?, parsePairs ks with
